@@ -108,6 +108,13 @@ func ServerHandle(rw netio.Conn, logger *zap.Logger, usernameByToken map[string]
 			_ = send400(rw)
 			return nil, conn.Addr{}, username, fmt.Errorf("failed to parse request target: %w", err)
 		}
+
+		// The client may have sent tunnel data right behind the request head.
+		// Do not lose what the buffered reader has already consumed.
+		if rwbr.Buffered() > 0 {
+			rw = newReadBufferedNetioConn(rw, rwbr)
+		}
+
 		return newServerConnectPendingConn(rw), targetAddr, username, nil
 	}
 
